@@ -227,8 +227,37 @@ func c03Client(p *ana.Prog, r *ana.Result, name string, scion bool) {
 	if nOOB != 1 {
 		r.Violate("C03.table", fname, "rx-timestamp-site", p.Pos(fn.Pos()), fmt.Sprintf("expected one TimestampFromOOBData on this read's oob data, found %d", nOOB))
 	}
-	// the interleaved arm is taken only under the flag set by the interleaved origin match (C05 decides the flag);
-	// here: the arm's block is guarded by a bool phi that is true only where resp.Origin == req.Receive matched
+	// the interleaved arm is taken only when this response answered the interleaved request:
+	// every path into the arm passes the accept edge of resp.OriginTime == req.ReceiveTime
+	{
+		respRoot := ntpCallArgRoot(r, fn, ana.Q("net/ntp.DecodePacket"), 0, 0)
+		reqRoot := ntpCallArgRoot(r, fn, ana.Q("net/ntp.EncodePacket"), 1, 0)
+		isPath := func(v ssa.Value, root ssa.Value, field string) bool {
+			pth := ana.AccessPath(v)
+			return strings.HasSuffix(pth, "."+field) && rootAlloc(v) == root
+		}
+		gInter := pathCmpGate(p, fn, "resp.OriginTime==req.ReceiveTime", func(x, y ssa.Value) bool {
+			return isPath(x, respRoot, "OriginTime") && isPath(y, reqRoot, "ReceiveTime")
+		}, true)
+		var interPred *ssa.BasicBlock
+		for i := range t0.Edges {
+			if t0.Edges[i] == inter.v[0] {
+				interPred = t0.Block().Preds[i]
+			}
+		}
+		// the arm starts where the remembered transmit time is unfolded
+		var armStart ssa.Instruction
+		if c, _ := ana.CallOf(inter.v[0]); c != nil {
+			armStart = c
+		}
+		if interPred == nil || armStart == nil || len(gInter.Accept) == 0 {
+			r.Violate("C03.table", fname, "interleaved-arm-selected-by-origin-match", posOf(p, co[0]), "UNDECIDED: cannot locate the interleaved arm or the comparison resp.OriginTime == req.ReceiveTime")
+		} else if okp, w := ana.MustPass(fn, nil, gInter, func(x ssa.Instruction) bool { return x == armStart }, nil, nil); okp {
+			r.Ok("C03.table", fname, "interleaved-arm-selected-by-origin-match", posOf(p, armStart), "the remembered triple is used only on paths on which this response's origin equals the interleaved request's receive field")
+		} else {
+			r.Violate("C03.table", fname, "interleaved-arm-selected-by-origin-match", posOf(p, armStart), "the remembered timestamps of the previous exchange are combined with this response although the response did not answer an interleaved request (a basic-mode reply after a loss mixes two exchanges)", w...)
+		}
+	}
 	// prev stores
 	accept := ana.ErrNilGate(p, fn, ana.Q("net/ntp.ValidateResponseTimestamps"))
 	cTx1 := basic.v[0]
